@@ -2,5 +2,5 @@ SPECIFICATION Spec
 CONSTANTS
   MaxChunks = 3
   Emit = TRUE
-INVARIANTS Atomic Publishes FailureKeepsPrior EmitInv
+INVARIANTS Atomic Publishes FailureKeepsPrior CannotStageKeepsPrior EmitInv
 CHECK_DEADLOCK FALSE
